@@ -61,21 +61,27 @@ def _list_slice(slize: Slice) -> List[Slice]:
     """Internal recursive helper for `resolve_slice`.
     Returns a list of Slices in which each element has a concrete Signal for its parent."""
 
-    # Resolve "full-width" slices to their parent Signals
-    if width(slize) == width(slize.parent):
+    # Resolve "full-width", in-order slices to their parent Signals
+    if slize.step == 1 and width(slize) == width(slize.parent):
         # Return a single-element list, after resolution
         return [_resolve_sliceable(slize.parent)]
 
-    if isinstance(slize.parent, Signal):
+    if isinstance(slize.parent, Signal) and slize.step == 1:
         return [slize]  # Already all good! Just make a one-element list.
 
     # Do some actual work. Recursively peel off a bit at a time.
     if width(slize) == 1:
         # Base case: slice is one-bit wide. Reach into the parent signal and grab that bit.
+        # For single-bit slices `bot` is the index of that bit, whatever the step.
+
+        if isinstance(slize.parent, Signal):
+            return [slize.parent[slize.bot]]
 
         if isinstance(slize.parent, Slice):
             parent = slize.parent  # Note this is also a Slice
-            return _list_slice(parent.parent[parent.bot + slize.bot])
+            # Bit `k` of `parent` is bit `first + k * step` of *its* parent
+            first = parent.bot if parent.step > 0 else parent.top - 1
+            return _list_slice(parent.parent[first + slize.bot * parent.step])
 
         if isinstance(slize.parent, Concat):
             idx = 0  # Find the `part` including our index
@@ -90,10 +96,10 @@ def _list_slice(slize: Slice) -> List[Slice]:
 
     # Otherwise recurse in something like a "cons" pattern, splitting between the first bit and the rest.
     step = slize.step
-    if step < 0:  # Negative step, begin from `top`
-        first = _list_slice(slize.parent[slize.top])
-        rest = slize.parent[slize.top + step : slize.bot : step]
-        rest = _list_slice(rest)
+    if step < 0:  # Negative step, begin from the highest selected index `top - 1`
+        first = _list_slice(slize.parent[slize.top - 1])
+        stop = slize.bot - 1 if slize.bot > 0 else None
+        rest = _list_slice(slize.parent[slize.top - 1 + step : stop : step])
 
     else:  # Positive step, begin from `bot`
         first = _list_slice(slize.parent[slize.bot])
@@ -126,8 +132,11 @@ def _resolve_slice(slize: Slice) -> Sliceable:
     # And convert to either a single element or Concat
     if len(ls) == 1:  # Resolved to single Slice
         return ls[0]
-    elif len(ls) > 1:  # Multiple parts required - concatenate them
-        return Concat(*ls)
+    elif len(ls) > 1:  # Multiple parts required - concatenate them, flattening any which are themselves Concats
+        parts = []
+        for elem in ls:
+            parts.extend(elem.parts if isinstance(elem, Concat) else [elem])
+        return Concat(*parts)
 
     raise RuntimeError(f"Error resolving Slice {slize}")
 
